@@ -375,6 +375,17 @@ def errToDetails : Arg → Details
   | .details (p :: d) => p :: d
   | _ => [(tracebackKey, .tb)]
 
+/-- the details `TestByTestResult` keeps for an outcome (`prev` = what it held before) -/
+def tbtDet (k : Kind) (a : Arg) (prev : Option Details) : Option Details :=
+  match k, a with
+  | .success, .details d | .uxsuccess, .details d => some d
+  | .success, _ | .uxsuccess, _ => none
+  | .skip, .details d => some d
+  | .skip, .reason r => some [(reasonKey, .text r)]
+  | .skip, _ => none
+  | _, .details [] => prev      -- `_err_to_details` raises (`err may not be None`) before the assignment
+  | _, a => some (errToDetails a)
+
 def tbtStep (s : TbtSt) (c : Call) : TbtSt :=
   match c with
   | .startTest _ =>
@@ -384,16 +395,7 @@ def tbtStep (s : TbtSt) (c : Call) : TbtSt :=
       let cb : TbtCall := { test := t, status := s.status, start := s.start, stop := s.tt.clock,
                             tags := s.tt.tags.cur, details := s.details }
       { s with tt := ttStep s.tt c, calls := s.calls ++ [cb] }
-  | .add k _ a =>
-      let det : Option Details := match k, a with
-        | .success, .details d | .uxsuccess, .details d => some d
-        | .success, _ | .uxsuccess, _ => none
-        | .skip, .details d => some d
-        | .skip, .reason r => some [(reasonKey, .text r)]
-        | .skip, _ => none
-        | _, .details [] => s.details      -- `_err_to_details` raises (`err may not be None`) before the assignment
-        | _, a => some (errToDetails a)
-      { s with tt := ttStep s.tt c, status := some (tbtStatus k), details := det }
+  | .add k _ a => { s with tt := ttStep s.tt c, status := some (tbtStatus k), details := tbtDet k a s.details }
   | _ => { s with tt := ttStep s.tt c }
 
 /-- own state of an `ExtendedToOriginalDecorator` -/
